@@ -176,7 +176,9 @@ pub fn live_pass(rep: &Report, prop: &str, oracle: Oracle, slots: usize, depth: 
                         let (p1, p2, p3, _) = train(L6B, 0, &pdu_z, 0x0800);
                         let (q1, q2, q3, _) = train(L3B, slots as u8, &pdu_z, 0x0800);
                         let (r1, r2, r3, _) = train(L3B, 255, &pdu_z, 0x0800);
-                        vec![("complete", vec![Desc::complete(L6B, 0x86DD, &pdu_z).print()]), ("train-id0", vec![p1, p2, p3]), ("train-alias", vec![q1, q2, q3]), ("train-id255", vec![r1, r2, r3])]
+                        // twin of the train the alphabet leaves unfinished on id 0 (same header fields, other PDU)
+                        let (t1, t2, t3, _) = train(L6A, 0, &pdu_z, 0x0800);
+                        vec![("complete", vec![Desc::complete(L6B, 0x86DD, &pdu_z).print()]), ("train-id0", vec![p1, p2, p3]), ("train-alias", vec![q1, q2, q3]), ("train-id255", vec![r1, r2, r3]), ("train-twin-id0", vec![t1, t2, t3])]
                     };
                     for (pn, pk) in &probes {
                         let Some((mut d, _owned, _)) = sys.run(&hist) else { break };
@@ -204,7 +206,7 @@ pub fn live_pass(rep: &Report, prop: &str, oracle: Oracle, slots: usize, depth: 
                         }
                         acc.compared += 1;
                         // bytes AND metadata (label, protocol type, no extensions) must be the probe's own
-                        let (want_l, want_pt) = match *pn { "complete" => (L6B, 0x86DDu16), "train-id0" => (L6B, 0x0800), _ => (L3B, 0x0800) };
+                        let (want_l, want_pt) = match *pn { "complete" => (L6B, 0x86DDu16), "train-id0" => (L6B, 0x0800), "train-twin-id0" => (L6A, 0x0800), _ => (L3B, 0x0800) };
                         let delivered = matches!(&last, DecapOut::Completed { buf, meta, .. } if meta.pdu_len == 4 && buf[..4] == pdu_z && meta.label == want_l && meta.pt == want_pt && meta.exts.is_empty());
                         if !(all_ok && delivered) {
                             rep.violation(&format!("{}|live|{}-probe|{}", prop, pn, last.class()), hist.len() as u64, || (format!("live history {:?}, then reset + provision: the {} probe is not delivered: {}", names(), pn, last.brief()), json!({"live_history": names(), "slots": slots, "probe": pk.iter().map(|b| hex(b)).collect::<Vec<_>>()})));
